@@ -1,12 +1,29 @@
 //! Monitors, workload generators and adapters shared by the harness binaries.
-pub mod checks;
+//!
+//! Feature `l1` (on by default) holds everything that is written against INTERFACES of /repo's crates - the adapters
+//! around the real codec types (`real`), the drivers built on them and the codec-level checks. Without it the crate
+//! still provides the node-level monitors (`e2e`), which only run the crates' own `main()` in `osv-node` and observe
+//! sockets, processes and logs: when a change to /repo alters one of those interfaces, the driver falls back to that
+//! build, so that the node-level steps of a check can still reach a verdict.
+pub mod cfg;
+#[cfg(feature = "l1")]
 pub mod drive;
 pub mod e2e;
 pub mod gen;
+pub mod hostile;
 pub mod memio;
 pub mod panicmon;
 pub mod peer;
 pub mod prng;
+#[cfg(feature = "l1")]
 pub mod real;
+#[cfg(not(feature = "l1"))]
+pub mod real {
+    //! (node-level build: only the deployment description)
+    pub use crate::cfg::*;
+}
+pub mod checks;
 pub mod report;
+#[cfg(feature = "l1")]
 pub mod scn;
+pub mod units;
